@@ -958,5 +958,16 @@ def run(tier):
         rule_stop(rep, d, dec, sentinel)
     rule_acc(rep, d, dec, enc)
     rule_input(rep, d, [dec, enc])
+    # the result is a function of the argument alone: no object that outlives the call takes part (a static / thread_local scratch buffer hands back the
+    # previous call's output on a path that forgets to clear it)
+    for f_ in [dec, enc] + list(helpers):
+        st_ = [v for v in ir.walk_expr(f_) if v.get("kind") == "VarDecl" and (v.get("storageClass") == "static" or v.get("tls")) and
+               not ir.qtype(v).startswith("const ") and not v.get("constexpr")]
+        if st_:
+            rep.violates("C13.input", f_.get("name"), "no state survives the call", where=d.where(st_[0]),
+                         detail="`%s` is a %s local that is written by the function: what a call returns depends on the calls before it" % (
+                             st_[0].get("name"), "thread_local" if st_[0].get("tls") else "static"))
+        else:
+            rep.holds("C13.input", f_.get("name"), "no state survives the call", where=d.where(f_), detail="no mutable static / thread_local local", nontrivial=False)
     rep.unit("2 functions: base64decode, base64encode")
     return rep
